@@ -44,6 +44,6 @@ un!(q, U_UNKNOWN_THEN_KNOWN, PBin, bin);
 un!(q, U_ONLY_UNKNOWN, PBin, bin);
 un!(q, U_EMPTY, PBin, bin);
 un!(q, U_TWO_KNOWN, PBin, bin);
-un!(t, U_RETYPED_VARIANT, PBin, bin);
+un!(q, U_RETYPED_VARIANT, PBin, bin);
 un!(t, U_UNKNOWN_THEN_KNOWN, PLe, le);
 un!(t, U_TWO_KNOWN, PUnchecked, unchecked);
